@@ -8,7 +8,11 @@ import os
 import subprocess
 import sys
 
+import logging
+
 import vlib
+
+logging.disable(logging.CRITICAL)
 
 
 def setup():
